@@ -6,7 +6,7 @@
    over a script with push/pop frames; [spec_bytes] the bytes the protocol prescribes; [run_dop]/[run_dops] the getters. *)
 From Coq Require Import List ZArith.
 From SV Require Import Wire.Bytes Wire.Varint Wire.Crc Wire.Prim Wire.PushPop Wire.CorrPrim
-  Wire.VarintProofs Wire.PrimProofs Wire.PrimThms Wire.Records Wire.RecordsProofs Wire.BatchProofs Wire.MsetProofs.
+  Wire.VarintProofs Wire.PrimProofs Wire.PrimThms Wire.Records Wire.RecordsProofs Wire.BatchProofs Wire.MsetProofs Wire.FetchProofs.
 Import ListNotations.
 Open Scope Z_scope.
 
@@ -167,3 +167,22 @@ Theorem c09_control_record_roundtrip : forall (c : control_record) key value kre
   exists key', fst (control_decode key value) = Ok c key'.
 Proof. exact control_record_rt. Qed.
 Print Assumptions c09_control_record_roundtrip.
+
+(* FetchResponseBlock, every version: a partition block whose records section is a sequence of record batches (each
+   with at least one record; one kind per block) decodes back: header fields as the version carries them, aborted
+   transactions, the batches in order and normalised, the deprecated Records field = the first element of RecordsSet,
+   not partial; exactly the block's bytes are consumed. *)
+Theorem c09_fetch_block_roundtrip : forall (compress decompress : Z -> list Z -> option (list Z)),
+  (forall c x y, compress c x = Some y -> decompress c y = Some x) ->
+  forall depth v b bs ops bytes, fblock_ok v b bs ->
+  fblock_ops compress v b = inr ops -> spec_bytes ops = inr bytes ->
+  forall d rest, at_ d (bytes ++ rest) -> len (raw d) < MAXLEN ->
+  exists d', fblock_decode decompress depth v d = Ok (norm_fblock v b bs) d' /\ raw d' = raw d /\ off d' = off d + len bytes.
+Proof. exact fblock_roundtrip. Qed.
+Print Assumptions c09_fetch_block_roundtrip.
+
+(* Re-encoding the decoded block writes identical bytes (Records is an alias that is not written). *)
+Theorem c09_fetch_block_reencode : forall (compress : Z -> list Z -> option (list Z)) v b bs,
+  fblock_ok v b bs -> fblock_ops compress v (norm_fblock v b bs) = fblock_ops compress v b.
+Proof. exact fblock_reencode. Qed.
+Print Assumptions c09_fetch_block_reencode.
